@@ -32,13 +32,19 @@ structure TxnFamily (Q : String → RowFn → Prop) : Prop where
 theorem Family.toTxn {Q : String → RowFn → Prop} (h : Family Q) : TxnFamily Q :=
   { add := h.add, set := h.set, incr := h.incr, wcas := h.wcas, remove := h.remove, wwx := h.wwx, delx := h.delx, dsp := h.dsp }
 
+theorem TxnFamily.mapInv {Q R : String → RowFn → Prop} (h : TxnFamily Q) (f : ∀ k g, Q k g → R k g) : TxnFamily R :=
+  { add := fun k e v j => f _ _ (h.add k e v j), set := fun k e p v j => f _ _ (h.set k e p v j),
+    incr := fun k a d e => f _ _ (h.incr k a d e), wcas := fun k e c v o => f _ _ (h.wcas k e c v o),
+    remove := fun k ic => f _ _ (h.remove k ic), wwx := fun k v ed ic ex o m => f _ _ (h.wwx k v ed ic ex o m),
+    delx := fun k n => f _ _ (h.delx k n), dsp := fun k n => f _ _ (h.dsp k n) }
+
 structure StepInvariant (W : Op → Prop) (I : State → Prop) : Prop where
   txn : TxnFamily (fun k f => ∀ s c, I s → I (withNewCas s c (liftRow k f)).1)
   touchOp : ∀ s c k exp, I s → I (opTouch s c k exp).1
   wmeta : ∀ s c k old new exp xs body j d, W (.wmeta c k old new exp xs body j d) → I s → I (opWriteWithMeta s c k old new exp xs body j d).1
   draw : ∀ s, I s → I { s with hlc := hlcNow s.hlc s.phys }
-  restart : ∀ s p, I s → I (reopen s p)
-  purge : ∀ s, I s → I (opPurge s).1
+  restart : ∀ s p, W (.restart p) → I s → I (reopen s p)
+  purge : ∀ s, W .purge → I s → I (opPurge s).1
   arm : ∀ s e, I s → I { s with expNext := schedAtOrBefore s.expNext e }
   fire : ∀ s, I s → I (opFireExpiry s)
   clock : ∀ s t, I s → I { s with phys := t }
@@ -188,7 +194,7 @@ theorem step_inv (s : State) (op : Op) (hwf : W op) (hs : I s) : I (step s op).1
   | delx c k names => exact hI.txn.delx k names s c hs
   | dsp c k names => exact hI.txn.dsp k names s c hs
   | wmeta c k old new exp xs body j d => exact hI.wmeta s c k old new exp xs body j d hwf hs
-  | purge => exact hI.purge s hs
+  | purge => exact hI.purge s hwf hs
   | update c k exp steps => exact opUpdate_inv hI _ _ _ _ _ _ _ _ hs
   | wuwx c k names steps sets dels m cbExp pe => exact opWuwx_inv hI _ _ _ _ _ _ _ _ _ _ _ _ _ _ hs
   | startFeed id c bf dump ko =>
@@ -212,7 +218,7 @@ theorem step_inv (s : State) (op : Op) (hwf : W op) (hs : I s) : I (step s op).1
   | sdi c k path cas v => exact opSubdocWrite_inv hI _ _ _ _ _ _ _ hs
   | gsd c k path => exact hs
   | draw => exact hI.draw s hs
-  | restart p => exact hI.restart s p hs
+  | restart p => exact hI.restart s p hwf hs
 
 /-- Every state reachable from a state satisfying the invariant satisfies it: induction over any operation list. -/
 theorem run_inv (ops : List Op) : ∀ (s : State), (∀ op ∈ ops, W op) → I s → I (run s ops).1 := by
@@ -314,9 +320,9 @@ theorem RowInvariant.step {P : Row → Prop} (hP : RowInvariant P) : StepInvaria
     · exact StateAll.of_colls_eq rfl h
     · exact h
   wmeta := fun s c k old new exp xs body j d hwf hs => opWriteWithMeta_stateAll hP s c k old new exp xs body j d hwf hs
-  purge := opPurge_stateAll
+  purge := fun s _ hs => opPurge_stateAll s hs
   draw := fun s hs => StateAll.of_colls_eq rfl hs
-  restart := fun s p hs => StateAll.of_colls_eq rfl hs
+  restart := fun s p _ hs => StateAll.of_colls_eq rfl hs
   arm := fun s e hs => StateAll.of_colls_eq rfl hs
   fire := fun s hs => fire_of_txn (fun k s c hs => opWithNewCas_row s c k _ (hP.fam.remove k none) hs)
     (fun s e hs => StateAll.of_colls_eq rfl hs) s hs
